@@ -279,6 +279,55 @@ pub fn modify(p: &mut Prepared, r: &mut Rng) {
     }
 }
 
+/// keys the stores must refuse: `..` / `.` components at every position, deep enough to leave
+/// `<target>/data`, the target and its parent; absolute keys; keys nested under the image store
+pub const BAD_DATA_KEYS: [&str; 16] = [
+    "..", "../x", "../../evil.txt", "a/..", "a/../x", "a/../../x", "a/b/../../../x", "a/./../..//x",
+    "sub/../../../notes.txt", "k/../../../../escape.txt", "a/b/..", "a/b/../..", "./../x", "a/../..", "/abs.bin", "",
+];
+pub const BAD_IMAGE_KEYS: [&str; 9] =
+    ["..", "../i.png", "a/../i.png", "a/../../i.png", "i.png/..", "sub/i.png", "sub/../../../i.png", "/abs.png", ""];
+/// keys that are fine once put into their plain form
+pub const ODD_DATA_KEYS: [&str; 5] = ["x/./y.bin", "x//z.bin", "w/", "./v.bin", "u/."];
+
+/// try every key of the lists on the font's stores (part of EVERY scenario): whatever the store
+/// accepts is recorded, so that the save is then judged with it
+pub fn try_store_keys(p: &mut Prepared, r: &mut Rng) {
+    let record = |p: &mut Prepared, image: bool, k: &str, b: Vec<u8>, expected: bool| {
+        let plain: PathBuf = PathBuf::from(k).components().collect();
+        let plain = plain.to_string_lossy().to_string();
+        if !expected {
+            p.notes.push(format!("the {} store accepted the key {:?} (kept as {:?})", if image { "image" } else { "data" }, k, plain));
+        }
+        if image {
+            p.shadow.images.insert(plain.clone(), CellS::Loaded(b));
+        } else {
+            p.shadow.data.insert(plain.clone(), CellS::Loaded(b));
+        }
+        p.preserve.remove(&(image, plain));
+    };
+    for k in BAD_DATA_KEYS {
+        let b = vec![b'B', r.below(256) as u8];
+        if p.font.data.insert(PathBuf::from(k), b.clone()).is_ok() {
+            record(p, false, k, b, false);
+        }
+    }
+    for k in BAD_IMAGE_KEYS {
+        let mut b = PNG.to_vec();
+        b.push(r.below(256) as u8);
+        if p.font.images.insert(PathBuf::from(k), b.clone()).is_ok() {
+            record(p, true, k, b, false);
+        }
+    }
+    if r.chance(1, 4) {
+        let k = *r.pick(&ODD_DATA_KEYS);
+        let b = vec![b'O', r.below(256) as u8];
+        if p.font.data.insert(PathBuf::from(k), b.clone()).is_ok() {
+            record(p, false, k, b, true);
+        }
+    }
+}
+
 /// inject the refusal kinds of `mask` (bit 0 version, 1 objectLibs key, 2 groups, 3 font info)
 pub fn inject(p: &mut Prepared, mask: u32, r: &mut Rng) {
     if mask & 1 != 0 {
@@ -502,6 +551,7 @@ pub fn case(seed: u64, idx: u64, out: &Path, verbose: bool) -> CaseOut {
             prior = if r.chance(1, 10) { Prior::NoParent } else { prior_for(idx) };
         }
     }
+    try_store_keys(&mut p, &mut r);
     let target_rel: Vec<String> = if in_place {
         comps("src.ufo")
     } else if prior == Prior::NoParent {
